@@ -1,6 +1,6 @@
 --------------------------------- MODULE TraceThreads ---------------------------------
 (* C08, real schedules: threads A, B (, C) each activate a probe on the shared function   *)
-(*    f(x): a = x + 1; b = a * 2; return b                                                *)
+(*    f(x): a = x + 1; b = a * 2; c: @W = b + 1; return b                                 *)
 (* (A: 'f > a', B: 'f > b', C: 'f(a) > b'), call f(arg) and f(arg + 1), and deactivate,    *)
 (* interleaved by the baton scheduler at attribute / subscript load-store granularity.     *)
 (* ThreadsAbs: every thread observes exactly the events of its own two calls, each call    *)
@@ -12,6 +12,7 @@ VARIABLES rid, done
 Ev(t, x) == CASE t \in {"A", "D", "E"} -> {<<"a", x + 1>>}          \* D, E: two threads with the very same selector text
               [] t = "B" -> {<<"b", (x + 1) * 2>>}
               [] t = "C" -> {<<"a", x + 1>>, <<"b", (x + 1) * 2>>}
+              [] t = "T" -> {<<"v", (x + 1) * 2 + 1>>}            \* 'f > $v:@W' : c is the variable tagged W
 Got(th) == [i \in DOMAIN th.events |-> {<<th.events[i][j][1], th.events[i][j][2]>> : j \in DOMAIN th.events[i]}]
 Clauses(r) ==
   UNION { LET th == r.threads[t]  x == r.args[t]
